@@ -242,6 +242,37 @@ def check_aggregate(ctx, model):
                 for (_, tgt) in eq:
                     r2 |= v.reachable(tgt, cut_blocks=nxt)
                 skip = not any(sb in r2 for sb in swaps)
+    if not skip:
+        # `for offer in assets.into_iter().filter(|a| *a != distribution_asset)`: the loop never sees it
+        from ..mir import resolve_bool
+        from ..guards import resolve as _res
+        good_filters = set()
+        for fb, ft in v.calls_to(r"as std::iter::Iterator>::filter$"):
+            for po in v.origins_of_operand(ft["args"][1], at=v.at_term(fb)):
+                if po.kind != "closure" or po.a not in model.fnsrc:
+                    continue
+                fv = model.view(po.a)
+                fch = ((v.path, int(po.b.rsplit(":bb", 1)[1]), "closure"),)
+                for rb_ in fv.return_blocks():
+                    c = resolve_bool(fv, {"k": "copy", "pl": {"l": 0, "p": []}}, at=fv.at_term(rb_))
+                    if c.kind != "cmp" or c.op != "!=" or c.b is None:
+                        continue
+                    at = cond_at(fv, c)
+                    oa = _res(model, fch, fv, fv.origins_of_operand(c.a, at=at), elems=True)
+                    ob = _res(model, fch, fv, fv.origins_of_operand(c.b, at=at), elems=True)
+                    da = lambda os_: bool(os_) and all(o.kind == "call" and o.a.endswith("query_distribution_asset") for o in os_)
+                    if da(oa) or da(ob):
+                        good_filters.add("%s:bb%d" % (v.path, fb))
+        if good_filters and swaps:
+            def through_filter(sb):
+                for b_, i_, s_ in v.iter_stmts():
+                    if b_ == sb and s_["rv"]["r"] == "agg" and s_["rv"].get("adt") == "cosmwasm_std::WasmMsg":
+                        with v.opaque(r"as std::iter::Iterator>::filter$"):
+                            os_ = v.origins_of_operand({"k": "copy", "pl": s_["lhs"]}, at=(b_, i_ + 1), taint=True)
+                        if any(o.kind == "call" and o.b in good_filters for o in os_):
+                            return True
+                return False
+            skip = all(through_filter(sb) for sb in swaps)
     ctx.ob("C10-Q4", "%s|distribution-asset-skipped" % AGG, skip, "the distribution asset itself is never swapped: %s" % skip, v.where())
     check_messages_attached(ctx, model, AGG, rule="C10-Q4")
 
@@ -263,11 +294,13 @@ def check_collect(ctx, model):
         if w is None:
             continue
         n = 0
-        for b, t in w.calls_to(r"collect_fees_for_contract$"):
-            a0 = arg_origins(w, b, t, 0, taint=True)
+        from .common import scope_calls, scope_origins
+        for w_, ch_, b, t in scope_calls(model, q, r"collect_fees_for_contract$"):
+            # in the handler's loops or in the closure of `.map(..).collect()`
+            a0 = scope_origins(model, ch_, w_, t["args"][0], w_.at_term(b), taint=True)
             n += 1
             ctx.ob("C10-Q5", "%s|address-from-factory-query#%d" % (q, n), any(o.kind == "call" and o.a.endswith("QuerierWrapper::query") for o in a0),
-                   "contract address derives from %s" % sorted(map(repr, a0))[:3], w.where(b))
+                   "contract address derives from %s" % sorted(map(repr, a0))[:3], w_.where(b))
         ctx.floor("C10-Q5", "collect_fees_for_contract call sites in %s" % q, n, 2)
 
 
